@@ -160,6 +160,75 @@ fn expr(out: &mut Vec<GSpec>) {
     }
 }
 
+/// F-plus: `e+` and counted repetitions nested in other operators.  With the default configuration pest's
+/// optimizer unrolls them; in the `grammar-extras` configuration (`e+` stays one node) and with
+/// `pest_optimizer = false` (counted repetitions stay one node too) they reach RepeatMin / RepeatMinMax with
+/// MIN >= 1.  Each expression as a normal rule and as its atomic twin (check path).
+fn plus(out: &mut Vec<GSpec>) {
+    let t2 = strs(&["\"a\"", "\"b\""]);
+    let mut reps: Vec<String> = vec![];
+    for op in ["+", "{2}", "{1,2}", "{,2}", "{2,}"] {
+        for t in &t2 {
+            reps.push(un(op, t));
+        }
+    }
+    let mut exprs: Vec<String> = vec![];
+    for op in UNARY {
+        for r in &reps {
+            exprs.push(un(op, r));
+        }
+    }
+    let others = strs(&["\"a\"", "\"b\"", "(\"b\")?"]);
+    for op in ["~", "|"] {
+        for r in &reps {
+            for t in &others {
+                exprs.push(bin(op, r, t));
+                exprs.push(bin(op, t, r));
+            }
+        }
+    }
+    // depth 3: a repetition around a sequence that starts with `e+` / a counted repetition
+    for op2 in ["*", "+", "?", "{,2}", "{2,}"] {
+        for r in &reps {
+            exprs.push(un(op2, &bin("~", r, "(\"b\")?")));
+            exprs.push(un(op2, &bin("|", r, "\"b\"")));
+        }
+    }
+    for cfg in skip_cfgs() {
+        if cfg.name == "wc" {
+            continue;
+        }
+        let ok: Vec<&String> = exprs.iter().filter(|e| valid_body('N', e, &cfg.rules)).collect();
+        eprintln!("gramgen: plus/{}: {} of {}", cfg.name, ok.len(), exprs.len());
+        // quick: every third expression (all shapes are regular in op x rep x operand)
+        let quick_list: Vec<&String> = ok.iter().enumerate().filter(|(i, _)| i % 3 == 0).map(|(_, e)| *e).collect();
+        let rest: Vec<&String> = ok.iter().enumerate().filter(|(i, _)| i % 3 != 0).map(|(_, e)| *e).collect();
+        for (quick, list) in [(true, quick_list), (false, rest)] {
+            for (ci, chunk) in list.chunks(60).enumerate() {
+                let mut rules = cfg.rules.clone();
+                for (k, e) in chunk.iter().enumerate() {
+                    rules.push(RuleSpec::new(&format!("e{}", k), 'N', e));
+                    rules.push(RuleSpec::new(&format!("a{}", k), 'A', e));
+                }
+                let id = format!("plus_{}_{}{}", cfg.name, if quick { "q" } else { "t" }, ci);
+                for (suffix, options) in [("", vec![]), ("_raw", vec!["pest_optimizer = false".to_string()])] {
+                    out.push(GSpec {
+                        id: format!("{}{}", id, suffix),
+                        family: "plus".into(),
+                        quick,
+                        rules: rules.clone(),
+                        alphabet: cfg.alphabet.into(),
+                        max_len: 5,
+                        max_len_thorough: 6,
+                        options,
+                        ..Default::default()
+                    });
+                }
+            }
+        }
+    }
+}
+
 /// Extras at depth <= 1: special terminals, stack built-ins, references to rules of each kind.
 fn exprx(out: &mut Vec<GSpec>) {
     let helpers = vec![
@@ -1353,6 +1422,9 @@ pub fn all(out: &mut Vec<GSpec>) {
     if want("optstack") {
         optstack(out);
     }
+    if want("plus") {
+        plus(out);
+    }
     // the subject's `grammar-extras` configuration (pest keeps `e+` as one node): a slice of the corpus again
     let mut ge: Vec<GSpec> = vec![];
     for s in out.iter() {
@@ -1363,6 +1435,7 @@ pub fn all(out: &mut Vec<GSpec>) {
             "stack" => s.id == "stack_q0",
             "options" => s.id.starts_with("options_ws_") || s.id.starts_with("options_cnt_"),
             "mention" => s.id == "mention_q0",
+            "plus" => s.options.is_empty(),
             "arity" => s.id == "arity_3" || s.id == "arity_13",
             _ => false,
         };
